@@ -227,6 +227,7 @@ func runC20(c *C) {
 	for _, in := range c.ReplayInputs() {
 		replayC20(c, rs, in)
 	}
+	stringStream(c, rs, oneC20)
 	n := c.N(7, 400)
 	for _, r := range rs {
 		for i := 0; i < n && !c.Failed(); i++ {
